@@ -335,3 +335,36 @@ func verif_XTCPVisitor_handleConn(sv *XTCPVisitor, userConn net.Conn) {
 		verif.Ensures(verif.Same(verif.NthArg[any](evJoin, 0, 0), any(userConn)) && verif.Same(verif.NthArg[any](evJoin, 0, 1), below) && verif.CallCount(evJoin) == 1, "user_connection_joined_once_with_the_top_of_the_stack")
 	}
 }
+
+// SUDPVisitor.dispatcher (C03 "datagram payloads preserved": the datagram that
+// triggers a (re)connect is not lost): every iteration that starts a worker
+// hands it the connection just obtained and the very packet it took from the
+// send channel in that iteration. (The worker itself - two goroutines joined by
+// a wait group - is outside this unit: trusted frame.)
+//
+//verif:contract (*~/client/visitor.SUDPVisitor).worker
+//verif:trusted
+//verif:modifies *
+//verif:preserves H.client.visitor.SUDPVisitor. ChClosed@H.client.visitor.SUDPVisitor. H.client.visitor.BaseVisitor. H.pkg.config.v1.
+func verif_SUDPVisitor_worker(sv *SUDPVisitor, workConn net.Conn, firstPacket *msg.UDPPacket) {
+	sv.worker(workConn, firstPacket)
+}
+
+//verif:loopbody (*~/client/visitor.SUDPVisitor).dispatcher 1 check=verifSUDPDispatchStep args=sv
+func verifSUDPDispatchStep(sv *SUDPVisitor) bool {
+	const evWorker, evConn = "SUDPVisitor).worker", "SUDPVisitor).getNewVisitorConn"
+	if !verif.CalledInIter(evWorker) {
+		return true
+	}
+	return verif.CalledInIter("recv") && verif.CalledWithInIter(evWorker, 2, verif.IterArg[*msg.UDPPacket]("recv", 1)) &&
+		verif.IterRet[error](evConn, 1) == nil && verif.Same(verif.IterArg[any](evWorker, 1), any(verif.IterRet[net.Conn](evConn, 0)))
+}
+
+//verif:contract (*~/client/visitor.SUDPVisitor).dispatcher
+//verif:props C03
+//verif:kinds loop,post,pre
+func verif_SUDPVisitor_dispatcher(sv *SUDPVisitor) {
+	verif.Requires(sv.cfg != nil && sv.BaseVisitor != nil, "constructed_by_NewVisitor")
+	verif.ResetEvents()
+	sv.dispatcher()
+}
